@@ -71,7 +71,7 @@ func writeTypes(w *formatting.IndentedWriter, st dsl.SymbolTable, ns *dsl.Namesp
 		case *dsl.RecordDefinition:
 			writeRecord(w, td, st)
 		case *dsl.NamedType:
-			if _, found := unions[td.Name]; !found {
+			if _, found := unions[common.TypeIdentifierName(td.Name)]; !found {
 				writeNamedType(w, td)
 			}
 		default:
@@ -111,7 +111,7 @@ func writeUnionClasses(w *formatting.IndentedWriter, td dsl.TypeDefinition, unio
 				if _, ok := unions[unionClassName]; !ok {
 					if _, isNamedType := td.(*dsl.NamedType); isNamedType {
 						// This is a named type defining a union, so we will use the named type's name instead
-						unionClassName = td.GetDefinitionMeta().Name
+						unionClassName = common.TypeIdentifierName(td.GetDefinitionMeta().Name)
 					}
 					if len(unions) == 0 {
 						w.WriteStringln("_T = typing.TypeVar('_T')\n")
